@@ -78,6 +78,10 @@ class _Refuse(Exception):
 
 
 def _pos(n):
+    # a node that was substituted for a helper call carries the place of that call; call resolution looks it up where it was written
+    rp = getattr(n, "_res_pos", None)
+    if rp is not None:
+        return rp
     return (n.lineno, n.col_offset, getattr(n, "end_lineno", None), getattr(n, "end_col_offset", None))
 
 
@@ -218,8 +222,15 @@ class Inliner:
                     h.body = self.block(h.body, host, stack, depth)
             rep = self.try_inline(s, host, stack, depth)
             if rep is None:
+                before = self.stats["inlined"]
                 self.inline_expressions(s, stack, depth)
-                out.append(s)
+                # an expression helper that stood for a call of a statement helper (`def load(p): return require(parse(p), p)`): the statement
+                # now shows that call, try once more
+                rep2 = self.try_inline(s, host, stack, depth) if self.stats["inlined"] > before else None
+                if rep2 is None:
+                    out.append(s)
+                else:
+                    out.extend(rep2)
             else:
                 out.extend(rep)
         return out
@@ -229,6 +240,7 @@ class Inliner:
         """calls of single-expression helpers inside the expressions of statement `s` (not in its sub-blocks) are replaced by the
         helper's expression with the (simple) arguments substituted"""
         me = self
+        self._cur_stmt = s
 
         class T(ast.NodeTransformer):
             def generic_visit(self_, node):
@@ -293,8 +305,28 @@ class Inliner:
         q = quals[0]
         h0 = self.p0.funcs[q]
         nm = h0.name
-        if getattr(call, "_foreign", False) or not _is_candidate_name(nm) or h0.outer is not None or q in stack:
+        if getattr(call, "_foreign", False) or not _is_candidate_name(nm) or q in stack:
             return None
+        if h0.outer is not None:
+            # a single-expression closure: a plain `def` directly in the body of the function being rewritten, bound once, called after its definition;
+            # its free variables are the host's locals, read at call time in both forms - unless a comprehension at the call site binds one of them
+            host_q = getattr(self, "_host_q", None)
+            hostdef = self.defs.get(host_q) if host_q is not None else None
+            if hostdef is None or h0.outer.qual != host_q or h0.outer.outer is not None:
+                return None
+            defs_ = [st for st in hostdef.body if isinstance(st, ast.FunctionDef) and st.name == h0.name]
+            rebinds = [n for n in ast.walk(hostdef) if isinstance(n, ast.Name) and n.id == h0.name and isinstance(n.ctx, (ast.Store, ast.Del))]
+            others = [n for n in ast.walk(hostdef) if isinstance(n, (ast.FunctionDef, ast.ClassDef)) and n.name == h0.name and n not in defs_]
+            if len(defs_) != 1 or rebinds or others or defs_[0].decorator_list or call.lineno <= defs_[0].lineno:
+                return None
+            cur = getattr(self, "_cur_stmt", None)
+            if cur is None:
+                return None
+            comp_bound = {t.id for c_ in ast.walk(cur) if isinstance(c_, ast.comprehension) for t in ast.walk(c_.target) if isinstance(t, ast.Name)} | {c_.target.id for c_ in ast.walk(cur) if isinstance(c_, ast.NamedExpr) and isinstance(c_.target, ast.Name)}
+            own = {x.arg for x in defs_[0].args.posonlyargs + defs_[0].args.args}
+            free = {n.id for n in ast.walk(defs_[0]) if isinstance(n, ast.Name)} - own
+            if free & comp_bound or _has(defs_[0].body, (ast.Nonlocal, ast.Global)):
+                return None
         if h0.module.name != self.m.name and q not in self.pristine:
             # a single-expression helper of another module: only if every global name it uses means the same thing here
             if not self._foreign_compatible(h0):
@@ -354,6 +386,8 @@ class Inliner:
         wrapper = ast.Expr(value=expr)
         wrapper = self._substitute(wrapper, subst)
         new = wrapper.value
+        if hasattr(new, "lineno") and not getattr(new, "_foreign", False):
+            new._res_pos = _pos(new)  # type: ignore[attr-defined]
         ast.copy_location(new, call)
         for n in ast.walk(new):
             if not hasattr(n, "lineno"):
